@@ -198,8 +198,26 @@ CALLS_SEEN = []
 # the theorem, recorded in the trusted base), name -> parameter names
 EXTERNAL = {
     'shrink_to_fit': (['context', 'box', 'available_content_width'], {}),
+    'justify_line': (['context', 'line', 'extra_width'], {}),
+    'resolve_position_percentages': (['box', 'containing_block'], {}),
+    '.translate': (['self', 'dx', 'dy', 'ignore_floats'],
+                   {'dx': '(EConst (VNum (0#1)))', 'dy': '(EConst (VNum (0#1)))',
+                    'ignore_floats': '(EConst (VBool false))'}),
+    '.page_values': (['self'], {}),
     # OrientedBox.restore_box_attributes copies margin_a / margin_b / inner back to the real box
     '.restore_box_attributes': (['self'], {}),
+}
+# external functions that may be called as a STATEMENT `f(a, b)` (their effect is outside the translated subset):
+# name -> the parameters whose object the callee may mutate.  The embedding has value semantics, so the statement is
+# printed as the unpacking  %call, m1, .., mk = f(a, b) : the oracle answers the list [returned value; state of m1
+# after the call; ..] and the mutated arguments (which must be plain names) are rebound.  The variable "%call"
+# (not a Python name) is bound in the final environment exactly when such a statement was executed.
+# (an oracle of EXTERNAL that is not listed here mutates nothing the translated code reads again: its statement is
+# printed as the assignment of its result to "%call")
+EXTERNAL_STMT = {
+    'justify_line': ['line'],
+    'resolve_position_percentages': ['box'],
+    '.translate': ['self'],
 }
 
 
@@ -235,6 +253,30 @@ def call(e):
             raise Unsupported('missing argument %s in call of %s' % (p_, name))
     CALLS_SEEN.append(name)
     return '(ECall %s [%s])' % (q(name), '; '.join(out))
+
+
+def call_stmt(e):
+    """statement-level call of an external function (see EXTERNAL_STMT)"""
+    if isinstance(e.func, ast.Name):
+        name, args = e.func.id, list(e.args)
+    elif isinstance(e.func, ast.Attribute):
+        name, args = '.' + e.func.attr, [e.func.value] + list(e.args)
+    else:
+        raise Unsupported(ast.dump(e)[:200])
+    if name in CALLABLE or name not in EXTERNAL or name not in EXTERNAL_STMT:
+        raise Unsupported('statement-level call of %s (not an external statement function)' % name)
+    text = call(e)
+    params = EXTERNAL[name][0]
+    given = dict(zip(params, args))
+    for k in e.keywords:
+        given[k.arg] = k.value
+    targets = ['(TVar "%call")']
+    for m in EXTERNAL_STMT[name]:
+        a = given.get(m)
+        if not isinstance(a, ast.Name):
+            raise Unsupported('argument %s of the statement-level call of %s is not a plain name' % (m, name))
+        targets.append('(TVar %s)' % q(a.id))
+    return '(SUnpack [%s] %s)' % ('; '.join(targets), text)
 
 
 def signature(fn):
@@ -390,6 +432,8 @@ def stmt(s):
         # and its arguments stay visible: the result is bound to "%call", which is not a Python name)
         f = s.value.func
         name = f.id if isinstance(f, ast.Name) else ('.' + f.attr if isinstance(f, ast.Attribute) else None)
+        if name in EXTERNAL_STMT:
+            return call_stmt(s.value)
         if name in EXTERNAL:
             return '(SAssign [(TVar "%%call")] %s)' % call(s.value)
         raise Unsupported('call statement of %s' % name)
@@ -583,6 +627,13 @@ def translate_function(fn, name, slice_from=None, params=None, after_unpack=None
         if len(loops) != 1:
             raise Unsupported('%d while loops at the top level of %s' % (len(loops), fn.name))
         body = loops
+    elif slice_from == '<first-if>':
+        # the first `if` statement at the top level of the function (test included); the statements after it are
+        # not translated
+        ifs = [x for x in body if isinstance(x, ast.If)]
+        if not ifs:
+            raise Unsupported('no if statement at the top level of %s' % fn.name)
+        body = ifs[:1]
     elif slice_from is not None:
         for i, s in enumerate(body):
             if isinstance(s, ast.Assign) and len(s.targets) == 1 and isinstance(s.targets[0], ast.Name) \
@@ -702,6 +753,7 @@ TARGETS = {
         ('fun', 'Box.content_box_y', 'content_box_y', {}),
         ('fun', 'Box.border_box_x', 'border_box_x', {}),
         ('fun', 'Box.border_box_y', 'border_box_y', {}),
+        ('fun', '_overlap_ratio', 'overlap_ratio', {}),
         ('fun', 'Box.rounded_box', 'rounded_box', {}),
         ('fun', 'Box.rounded_box_ratio', 'rounded_box_ratio', {}),
         ('fun', 'Box.rounded_padding_box', 'rounded_padding_box', {}),
@@ -732,6 +784,18 @@ TARGETS = {
         ('fun', 'compute_variable_dimension', 'compute_variable_dimension', {
             'after_unpack': ('side_boxes', 'OrientedBox'),
             'params': ['box_a', 'box_b', 'box_c', 'available_size']}),
+    ]),
+    'GenInline': ('weasyprint/layout/inline.py', [
+        ('fun', 'text_align', 'text_align', {}),
+    ]),
+    'GenPageName': ('weasyprint/layout/block.py', [
+        ('fun', 'block_level_page_name', 'block_level_page_name', {}),
+    ]),
+    'GenRelative': ('weasyprint/layout/block.py', [
+        # the `if box.style['position'] == 'relative':` statement of relative_positioning (the recursion into the
+        # children of inline boxes that follows it is not translated)
+        ('fun', 'relative_positioning', 'relative_if', {'slice_from': '<first-if>', 'params': [
+            'box', 'containing_block']}),
     ]),
     'GenCss': ('weasyprint/css/__init__.py', [
         ('fun', 'declaration_precedence', 'declaration_precedence', {}),
